@@ -322,7 +322,7 @@ func process(path string) ([]byte, error) {
 			if nm := lastName(n.X); nm != "" && chanName[nm] {
 				// for v := range ch { body }  =>  for { v, ok := simrt.Recv2(ch); if !ok { break }; body }
 				if n.Value != nil {
-					unsupported(n, "range over channel with two variables")
+					// two iteration variables: cannot be a channel
 					return true
 				}
 				chID := tmp("ch")
